@@ -898,6 +898,8 @@ def _affine_paths(f: Scope, program):
                     return ('test', fn, args)
                 if fn in ('builtins.type', 'builtins.id') and len(args) == 1 and not e.keywords:
                     return ('inspect', fn, args)        # looks at the object, takes nothing from it
+                if fn == 'functools.partial' and args:
+                    return ('partial', tuple(args))     # a new callable: not the caller's predicate any more, consumes nothing
                 problems.append(f'unrecognised call {norm(e)}')
                 return ('unknown', norm(e))
             if isinstance(e, (ast.Compare, ast.BoolOp, ast.UnaryOp)):
@@ -987,7 +989,8 @@ def c18(ctx: Ctx) -> None:
             ok = len(applies) == 1 and applies[0].kind == 'map' and isinstance(applies[0].args[1], _It) and applies[0].args[1].kind == 'tee' \
                 and isinstance(applies[0].args[1].args[0], _It) and applies[0].args[1].args[0].kind == 'param' and applies[0].args[1].args[0].args[0] == src
             ctx.check('C18-R2', f'{inst}: condition applied by {[repr(a) for a in applies]}', where, ok,
-                      'exactly once per element, on a private copy of the source', 'the predicate is evaluated zero or several times per element (or on the shared source)',
+                      'exactly once per element, on a private copy of the source', 'the caller\'s predicate is evaluated zero or several times per element (or on the '
+                      'shared source, or something else is applied in its place)',
                       construct=construct_key('split', 'predicate application', len(applies)))
         # R3
         ok3 = False
@@ -1077,6 +1080,35 @@ def c18(ctx: Ctx) -> None:
     ctx.check('C18-R5', f'exhaust: {[norm(n.ast) for n in dq] or [norm(n.ast.iter) for n in loops]}', f'{IT}:{ex.lineno}',
               w is None and bool(dq or loops) and not rets, 'drains the whole argument, returns None',
               'exhaust does not consume its whole argument or returns a value', witness=render(ge, w), construct=construct_key('exhaust', 'drain'))
+    # ... and an exception out of the iteration is the caller's to see: a handler around the drain that lets exhaust() return
+    # normally reports "finished" for an argument that was consumed only in part
+    drains_ = dq + loops
+    if drains_:
+        def always_raises(stmts) -> bool:
+            if not stmts:
+                return False
+            last = stmts[-1]
+            if isinstance(last, ast.Raise):
+                return True
+            if isinstance(last, ast.If):
+                return always_raises(last.body) and always_raises(last.orelse)
+            return False
+        hs_ = []
+        w5 = None
+        for d in drains_:
+            x = d.ast
+            while x is not None and x is not ex.node:
+                par_ = parent(x)
+                if isinstance(par_, ast.Try) and x in par_.body:
+                    for h in par_.handlers:
+                        hs_.append(h)
+                        if not always_raises(h.body):
+                            w5 = w5 or [f'{IT}:{h.lineno} except {norm(h.type) if h.type is not None else ""}: ... can complete normally']
+                x = par_
+        ctx.check('C18-R5', f'exhaust: {len(hs_)} handler(s) around the drain', f'{IT}:{ex.lineno}', w5 is None,
+                  'what the iteration raises reaches the caller', 'an exception raised while iterating (by the iterator, a mapped function, a '
+                  'predicate) is swallowed: exhaust() returns None as if the argument had been consumed to its end',
+                  witness=w5 or [], construct=construct_key('exhaust', 'iteration failure swallowed'))
 
 
 # ---------------------------------------------------------------------------
@@ -1138,6 +1170,26 @@ def c19(ctx: Ctx) -> None:
     tryp = next((c for c in f.children if c.kind == 'function' and any(
         isinstance(x, ast.Call) and isinstance(x.func, ast.Name) and x.func.id == parse_p for x in ast.walk(c.node))), None)
     tryp_param = None          # when the guarded parser is a module-level helper: the parameter through which it receives the parser
+    parser_loop_vars: Set[str] = set()
+    if tryp is None:
+        # several parsers tried in turn: `for parser in parsers: ... parser(x)` with `parsers` built from the parameter
+        derived = {parse_p}
+        grew = True
+        while grew:
+            grew = False
+            for x in ast.walk(f.node):
+                if isinstance(x, ast.Assign) and len(x.targets) == 1 and isinstance(x.targets[0], ast.Name) and x.targets[0].id not in derived \
+                        and any(isinstance(y, ast.Name) and y.id in derived for y in ast.walk(x.value)):
+                    derived.add(x.targets[0].id)
+                    grew = True
+        for c in f.children:
+            if c.kind != 'function':
+                continue
+            for x in ast.walk(c.node):
+                if isinstance(x, ast.For) and isinstance(x.target, ast.Name) and any(isinstance(y, ast.Name) and y.id in derived for y in ast.walk(x.iter)) \
+                        and any(isinstance(y, ast.Call) and isinstance(y.func, ast.Name) and y.func.id == x.target.id for y in ast.walk(x)):
+                    tryp = c
+                    parser_loop_vars.add(x.target.id)
     if tryp is None:
         used = {x.id for x in ast.walk(f.node) if isinstance(x, ast.Name)}
         for c in u.module_scope.children:
@@ -1374,7 +1426,8 @@ def c19(ctx: Ctx) -> None:
                   construct=construct_key(unit.rel, 'dangerous calls', sorted({h[1] for h in hits})), examined=calls)
     # the only callee applied to input text is the parse parameter
     gt = build(tryp, p, inline_nested=False)
-    pcalls = [n for n in gt.nodes if n.kind == 'call' and isinstance(n.ast.func, ast.Name) and n.ast.func.id == (tryp_param or parse_p)]
+    pcalls = [n for n in gt.nodes if n.kind == 'call' and isinstance(n.ast.func, ast.Name) and (
+        n.ast.func.id == (tryp_param or parse_p) or n.ast.func.id in parser_loop_vars)]
     xp = tryp.params[0]
     # R4
     for pc in pcalls:
@@ -1397,6 +1450,20 @@ def c19(ctx: Ctx) -> None:
                   'handler covers Exception and returns the input', 'a parser failure escapes (or the value is lost)', witness=render(gt, w),
                   construct=construct_key(tryp.qualname, 'parse failure'))
     rets = [n for n in gt.nodes if n.kind == 'return']
+    # ... and what the parser answered is the result, whatever it is (None, False, 0 and '' are values like any other): from the
+    # success edge of a parser call every path returns that call's value
+    for pc in pcalls:
+        holder = None
+        par_ = parent(pc.ast)
+        if isinstance(par_, ast.Assign) and len(par_.targets) == 1 and isinstance(par_.targets[0], ast.Name):
+            holder = par_.targets[0].id
+        good_rets = [n for n in rets if n.ast.value is pc.ast or (holder is not None and isinstance(n.ast.value, ast.Name) and n.ast.value.id == holder)]
+        se_ = [e for e in gt.succ[pc.id] if e.label != 'exc']
+        wv = must_pass(gt, [], [gt.exit] + [n for n in rets if n not in good_rets], good_rets, start_edges=se_, edge_ok=_nonexc) if se_ else None
+        ctx.check('C19-R4', f'{tryp.name}: the value of {norm(pc.ast)} is returned as it is', gt.loc(pc), wv is None and bool(good_rets),
+                  'every value the parser produces is the result', 'a value the parser produced can be discarded (a literal that evaluates to None / a falsy '
+                  'value stays a string, or the original is returned instead)', witness=render(gt, wv),
+                  construct=construct_key(tryp.qualname, 'parser value discarded'))
     # ... and every string is handed to the parser: nothing but `isinstance(x, str)` decides whether parsing is tried
     isb_ = [n for n in gt.nodes if n.kind == 'branch' and norm(n.meta['test']) == f'isinstance({xp}, str)']
     for b_ in isb_:
@@ -1414,6 +1481,29 @@ def c19(ctx: Ctx) -> None:
         ctx.check('C19-R4', f'{tryp.name}: {xp} at {norm(n_.ast)[:60]} is the caller\'s value ({what_})', gt.loc(n_), not rebound,
                   'the parameter is never re-bound', f'{xp} was re-assigned at {[gt.loc(d_) for d_ in rebound]}: an unparsable string comes back changed '
                   '(or the parser sees something other than the text)', construct=construct_key(tryp.qualname, 'parameter re-bound', what_))
+    # ... likewise the item the pair parser takes apart: the text that is split is the item itself, not a normalised / stripped /
+    # re-encoded copy (key and value text would change with it)
+    pp0 = pair.params[0] if pair.params else None
+    if pp0 is not None:
+        gpp = build(pair, p, inline_module_helpers=True, no_inline=role_sibs)
+        splits_pp = [n for n in gpp.nodes if n.kind == 'call' and isinstance(n.ast.func, ast.Attribute) and n.ast.func.attr in SPLITTERS]
+        # (a store that receives the *result* of the split - `pair = _split_pair(pair)` - comes after it and is not meant)
+        stores_pp = [n for n in gpp.nodes if n.kind == 'store_name' and n.meta['name'] == pp0 and not n.meta.get('inlined_param')
+                     and find_path(gpp, [n], splits_pp, edge_ok=_nonexc) is not None]
+        ctx.check('C19-R1', f'{pair.name}: the item `{pp0}` is not re-bound before it is taken apart ({len(stores_pp)} such store(s))', gpp.loc(stores_pp[0]) if stores_pp else f'{PA}:{pair.lineno}',
+                  not stores_pp, 'split as given', f'`{pp0}` is replaced by something derived from it before it is taken apart: key and value text are no '
+                  'longer the caller\'s text (and joined strings disagree with the same pair given as a tuple or mapping)',
+                  construct=construct_key(pair.qualname, 'item re-bound'))
+    # ... and the separator is used as given: nothing is refused because of what a *transformation* of it looks like
+    # (`if not sep.strip(): raise` turns every whitespace separator into an error for all inputs)
+    for x in ast.walk(f.node):
+        if isinstance(x, ast.If) and any(isinstance(y, ast.Raise) for y in x.body + x.orelse) and any(
+                isinstance(y, ast.Call) and isinstance(y.func, ast.Attribute) and isinstance(y.func.value, ast.Name) and y.func.value.id == sep_p
+                and y.func.attr not in SPLITTERS for y in ast.walk(x.test)):
+            ctx.violation('C19-R2', f'{norm(x.test)} -> raise', f'{PA}:{x.lineno}',
+                          'a call is refused because of a property of a transformed separator: separators that are valid for str.split '
+                          '(whitespace, say) become errors, for every input shape', construct=construct_key('parse_to_dict', 'separator refused', x.test))
+
     def _ret_ok(r_: Node) -> bool:
         v = r_.ast.value
         if v is None:
